@@ -337,7 +337,7 @@ func (cmd *mainCmd) Run(args []string) error {
 			cmd.printComments(sourcePath.Provided, comments)
 			_, err = cmd.Stdout.Write(bs)
 		default:
-			err = os.WriteFile(filename, bs, 0o644)
+			err = replaceFile(filename, bs)
 		}
 		if err != nil {
 			log.Printf("%s: failed: %v", filename, err)
@@ -349,6 +349,44 @@ func (cmd *mainCmd) Run(args []string) error {
 
 	errors = append(errors, patchRunner.errors...)
 	return multierr.Combine(errors...)
+}
+
+// replaceFile replaces the contents of the file with data.
+//
+// The data is written to a temporary file next to the original, which is
+// then renamed over it. A write that fails or is cut short therefore never
+// leaves a truncated or half-written Go file behind: the file holds either
+// its old or its complete new contents.
+func replaceFile(filename string, data []byte) (err error) {
+	mode := os.FileMode(0o644)
+	if info, err := os.Stat(filename); err == nil {
+		mode = info.Mode().Perm()
+	}
+
+	f, err := os.CreateTemp(filepath.Dir(filename), "."+filepath.Base(filename)+".*.tmp")
+	if err != nil {
+		return fmt.Errorf("write %q: %w", filename, err)
+	}
+	tmp := f.Name()
+	defer func() {
+		if err != nil {
+			_ = os.Remove(tmp)
+			err = fmt.Errorf("write %q: %w", filename, err)
+		}
+	}()
+
+	if _, err = f.Write(data); err != nil {
+		_ = f.Close()
+		return err
+	}
+	if err = f.Chmod(mode); err != nil {
+		_ = f.Close()
+		return err
+	}
+	if err = f.Close(); err != nil {
+		return err
+	}
+	return os.Rename(tmp, filename)
 }
 
 func checkGeneratedCode(f *ast.File) bool {
